@@ -52,17 +52,83 @@ theorem collectSet_notStar (h : Nat) (ck : Bool) (fuel : Nat) (p : Bytes) (hp : 
   | zero => rfl
   | succ f => unfold collectSet; rw [recogSet_notStar h ck p hp]
 
-theorem batchGate_notStar (cfg : Config) (inTx : Bool) (fuel : Nat) (p : Bytes) (hp : p.head? ≠ some 42) :
+theorem recogGetR_notStar (h : Nat) (p : Bytes) (hp : p.head? ≠ some 42) : recogGetR h p = .notFast := by
+  unfold recogGetR
+  rw [startsWith_notStar p getHdrU hp rfl, startsWith_notStar p getHdrL hp rfl]
+  simp
+
+theorem recogSetR_notStar (h : Nat) (p : Bytes) (hp : p.head? ≠ some 42) : recogSetR h p = .notFast := by
+  unfold recogSetR
+  rw [startsWith_notStar p setHdrU hp rfl, startsWith_notStar p setHdrL hp rfl]
+  simp
+
+theorem fastPathR_notStar (h : Nat) (inTx : Bool) (p : Bytes) (hp : p.head? ≠ some 42) : fastPathR h inTx p = .notFast := by
+  unfold fastPathR
+  split
+  · rfl
+  · split
+    · rfl
+    · rw [recogGetR_notStar h p hp, recogSetR_notStar h p hp]
+
+theorem collectGetR_notStar (h : Nat) (fuel : Nat) (p : Bytes) (hp : p.head? ≠ some 42) :
+    collectGetR h fuel p = some ([], p) := by
+  cases fuel with
+  | zero => rfl
+  | succ f => unfold collectGetR; rw [recogGetR_notStar h p hp]
+
+theorem collectSetR_notStar (h : Nat) (fuel : Nat) (p : Bytes) (hp : p.head? ≠ some 42) :
+    collectSetR h fuel p = some ([], p) := by
+  cases fuel with
+  | zero => rfl
+  | succ f => unfold collectSetR; rw [recogSetR_notStar h p hp]
+
+/-- the recognisers are switched off altogether: repaired code, user without unrestricted keys -/
+def RecogOff (cfg : Config) : Prop := cfg.repaired = true ∧ cfg.unrestricted = false
+
+theorem DeadCfg.ofOff {cfg : Config} (h : RecogOff cfg) : DeadCfg cfg := Or.inr h
+
+/-- bytes no recogniser looks at twice: they do not begin like an array, or the recognisers are off -/
+def JunkOK (cfg : Config) (junk : Bytes) : Prop := junk.head? ≠ some 42 ∨ RecogOff cfg
+
+theorem fastPathC_junk (cfg : Config) (inTx : Bool) (p : Bytes) (hp : JunkOK cfg p) : fastPathC cfg inTx p = .notFast := by
+  unfold fastPathC
+  cases hp with
+  | inl hp =>
+    split
+    · split
+      · exact fastPathR_notStar _ _ p hp
+      · exact fastPath_notStar _ _ _ p hp
+    · rfl
+  | inr hp => simp [hp.2]
+
+theorem collectGetC_notStar (cfg : Config) (fuel : Nat) (p : Bytes) (hp : p.head? ≠ some 42) :
+    collectGetC cfg fuel p = some ([], p) := by
+  unfold collectGetC
+  split
+  · exact collectGetR_notStar _ _ p hp
+  · exact collectGet_notStar _ _ _ p hp
+
+theorem collectSetC_notStar (cfg : Config) (fuel : Nat) (p : Bytes) (hp : p.head? ≠ some 42) :
+    collectSetC cfg fuel p = some ([], p) := by
+  unfold collectSetC
+  split
+  · exact collectSetR_notStar _ _ p hp
+  · exact collectSet_notStar _ _ _ p hp
+
+theorem batchGate_junk (cfg : Config) (inTx : Bool) (fuel : Nat) (p : Bytes) (hp : JunkOK cfg p) :
     batchGate cfg inTx fuel p = some ([], p) := by
   unfold batchGate
-  split
-  · rw [collectGet_notStar _ _ _ p hp]
+  cases hp with
+  | inl hp =>
+    rw [collectGetC_notStar cfg fuel p hp]
     simp only []
+    rw [collectSetC_notStar cfg fuel p hp]
     split
-    · rw [collectSet_notStar _ _ _ p hp]
-      simp [batchActs]
-    · simp [batchActs]
-  · rfl
+    · split
+      · simp [batchActs]
+      · simp [batchActs]
+    · rfl
+  | inr hp => simp [hp.1, hp.2]
 
 /-- what the loop does with a buffer that holds (a prefix of) the malformed frame only -/
 def junkStep (env : Env) (p : Bytes) : List Action × Bytes :=
@@ -88,13 +154,18 @@ theorem head_prefix (p q junk : Bytes) (h : p ++ q = junk) (hj : junk.head? ≠ 
     rw [← h] at hj
     simpa using hj
 
+theorem JunkOK.pre {cfg : Config} (p q junk : Bytes) (h : p ++ q = junk) (hj : JunkOK cfg junk) : JunkOK cfg p := by
+  cases hj with
+  | inl hj => exact Or.inl (head_prefix p q junk h hj)
+  | inr hj => exact Or.inr hj
+
 /-- the sequential loop on a junk prefix -/
 theorem seqLoop_junkPrefix (cfg : Config) (hcodec : cfg.codec = codec1) (p q junk : Bytes) (h : p ++ q = junk)
-    (hh : junk.head? ≠ some 42) (hs : Small junk) (e : Err) (hj : (parse1 cfg.env junk).out = .error e)
+    (hh : JunkOK cfg junk) (hs : Small junk) (e : Err) (hj : (parse1 cfg.env junk).out = .error e)
     (f : Nat) (inTx : Bool) :
     seqLoop cfg (f + 1) p inTx = ((junkStep cfg.env p).1, (junkStep cfg.env p).2, inTx, false) := by
   unfold seqLoop
-  rw [fastPath_notStar _ _ _ p (head_prefix p q junk h hh), hcodec]
+  rw [fastPathC_junk cfg _ p (hh.pre p q junk h), hcodec]
   simp only []
   unfold junkStep
   cases parse_junkPrefix cfg.env p q junk h hs e hj with
@@ -109,8 +180,8 @@ theorem seqLoop_junkPrefix (cfg : Config) (hcodec : cfg.codec = codec1) (p q jun
     simp [parse1, this, Outcome.isIncomplete]
 
 /-- LEMMA S: complete command frames, then a junk prefix, in one buffer -/
-theorem seqLoop_cmds_then_junk (cfg : Config) (h14 : cfg.headerLen = 14) (hcodec : cfg.codec = codec1)
-    (p q junk : Bytes) (hpq : p ++ q = junk) (hh : junk.head? ≠ some 42) (hsj : Small junk) (e : Err)
+theorem seqLoop_cmds_then_junk (cfg : Config) (h14 : DeadCfg cfg) (hcodec : cfg.codec = codec1)
+    (p q junk : Bytes) (hpq : p ++ q = junk) (hh : JunkOK cfg junk) (hsj : Small junk) (e : Err)
     (hj : (parse1 cfg.env junk).out = .error e) :
     ∀ (left : List Cmd) (fuel : Nat) (inTx : Bool), (stream left).length < fuel → Small (stream left ++ p) →
       (∀ c ∈ left, CmdOK cfg c) →
@@ -133,9 +204,8 @@ theorem seqLoop_cmds_then_junk (cfg : Config) (h14 : cfg.headerLen = 14) (hcodec
     | zero => simp at hf
     | succ f =>
       have hokc := hok c (by simp)
-      have hfp : fastPath cfg.headerLen cfg.checked inTx (encCmd c ++ stream cs ++ p) = .notFast := by
-        rw [h14]
-        cases fastPath_dead cfg.checked inTx (encCmd c ++ stream cs ++ p) [] (stream cs ++ p) c (by simp) with
+      have hfp : fastPathC cfg inTx (encCmd c ++ stream cs ++ p) = .notFast := by
+        cases fastPathC_dead cfg h14 inTx (encCmd c ++ stream cs ++ p) [] (stream cs ++ p) c (by simp) with
         | inl hh' => exact hh'
         | inr hh' => have := hh'.2; simp at this; omega
       have hsb : Small (encCmd c ++ (stream cs ++ p)) := by simpa [List.append_assoc] using hs
@@ -157,9 +227,9 @@ theorem seqLoop_cmds_then_junk (cfg : Config) (h14 : cfg.headerLen = 14) (hcodec
 
 /-- one `read()` after which the buffer is `stream left ++ p`: all remaining commands are complete
     and `p` is a prefix of the malformed frame -/
-theorem onRead_cmds_then_junk (cfg : Config) (h14 : cfg.headerLen = 14) (hcodec : cfg.codec = codec1)
+theorem onRead_cmds_then_junk (cfg : Config) (h14 : DeadCfg cfg) (hcodec : cfg.codec = codec1)
     (left : List Cmd) (b0 chunk p q junk : Bytes) (tx : Bool)
-    (h : b0 ++ chunk = stream left ++ p) (hpq : p ++ q = junk) (hh : junk.head? ≠ some 42) (hsj : Small junk) (e : Err)
+    (h : b0 ++ chunk = stream left ++ p) (hpq : p ++ q = junk) (hh : JunkOK cfg junk) (hsj : Small junk) (e : Err)
     (hj : (parse1 cfg.env junk).out = .error e)
     (hs : Small (stream left ++ p)) (hmax : (stream left ++ p).length ≤ cfg.maxBuffer) (hok : ∀ c ∈ left, CmdOK cfg c) :
     ∃ tx', onRead cfg ⟨b0, tx, false⟩ chunk =
@@ -176,22 +246,11 @@ theorem onRead_cmds_then_junk (cfg : Config) (h14 : cfg.headerLen = 14) (hcodec 
     cases left with
     | nil =>
       simp only [stream, List.map_nil, List.flatten_nil, List.nil_append]
-      exact batchGate_notStar cfg tx _ p (head_prefix p q junk hpq hh)
+      exact batchGate_junk cfg tx _ p (hh.pre p q junk hpq)
     | cons c cs =>
       have hb : (stream (c :: cs) ++ p) ++ [] = encCmd c ++ (stream cs ++ p) := by
         rw [stream_cons]; simp
-      have hg := collectGet_dead' cfg.checked ((stream (c :: cs) ++ p).length + 1) (stream (c :: cs) ++ p) [] (stream cs ++ p) c hb
-      have hsd := collectSet_dead' cfg.checked ((stream (c :: cs) ++ p).length + 1) (stream (c :: cs) ++ p) [] (stream cs ++ p) c hb
-      unfold batchGate
-      rw [h14]
-      split
-      · rw [hg]
-        simp only []
-        split
-        · rw [hsd]
-          simp [batchActs]
-        · simp [batchActs]
-      · rfl
+      exact batchGate_dead' cfg h14 tx _ _ [] (stream cs ++ p) c hb
   rw [hgate]
   simp only []
   rw [hseq]
@@ -210,8 +269,8 @@ theorem junkStep_decided (env : Env) (p : Bytes) (h : (parse1 env p).out.isIncom
   simp [junkStep, h]
 
 /-- A MALFORMED FRAME GETS AN ERROR REPLY: every read of every segmentation of `stream left ++ junk` -/
-theorem reads_junk_error (cfg : Config) (h14 : cfg.headerLen = 14) (hcodec : cfg.codec = codec1) (hdepth : 1 ≤ cfg.env.depth)
-    (junk : Bytes) (hh : junk.head? ≠ some 42) (e : Err) (hj : (parse1 cfg.env junk).out = .error e) :
+theorem reads_junk_error (cfg : Config) (h14 : DeadCfg cfg) (hcodec : cfg.codec = codec1) (hdepth : 1 ≤ cfg.env.depth)
+    (junk : Bytes) (hh : JunkOK cfg junk) (e : Err) (hj : (parse1 cfg.env junk).out = .error e) :
     ∀ (chunks : List Bytes) (left : List Cmd) (b0 : Bytes) (tx : Bool) (acts : List Action),
       b0 ++ chunks.flatten = stream left ++ junk → JInv cfg.env junk left b0 →
       Small (stream left ++ junk) → (stream left ++ junk).length ≤ cfg.maxBuffer → (∀ c ∈ left, CmdOK cfg c) →
@@ -337,9 +396,9 @@ theorem reads_junk_error (cfg : Config) (h14 : cfg.headerLen = 14) (hcodec : cfg
           exact ⟨tail, by rw [← List.append_assoc, htail]⟩
 
 /-- … for the whole connection -/
-theorem run_junk_error (cfg : Config) (h14 : cfg.headerLen = 14) (hcodec : cfg.codec = codec1) (hdepth : 1 ≤ cfg.env.depth)
+theorem run_junk_error (cfg : Config) (h14 : DeadCfg cfg) (hcodec : cfg.codec = codec1) (hdepth : 1 ≤ cfg.env.depth)
     (cmds : List Cmd) (junk : Bytes) (segs : List Bytes) (h : segs.flatten = stream cmds ++ junk)
-    (hh : junk.head? ≠ some 42) (e : Err) (hj : (parse1 cfg.env junk).out = .error e)
+    (hh : JunkOK cfg junk) (e : Err) (hj : (parse1 cfg.env junk).out = .error e)
     (hs : Small (stream cmds ++ junk)) (hmax : (stream cmds ++ junk).length ≤ cfg.maxBuffer)
     (hok : ∀ c ∈ cmds, CmdOK cfg c) :
     ∃ tail, run cfg segs = execAll cmds ++ Action.protoErr :: tail := by
